@@ -10,7 +10,7 @@ from common import Check
 
 # Which code the model mirrors.  Flip an entry to True in the same change that commits the corresponding repair to the
 # repository (fixes/D25_recoco_send_retry.diff, fixes/D60_recoco_again_empty_subtask.diff); the theorems hold for both settings.
-REPAIRED = {"fix_send": False, "fix_empty_sub": False}
+REPAIRED = {"fix_send": True, "fix_empty_sub": True}
 
 UNIT = 8.0
 T0 = 8000                       # 1000.0 s
@@ -374,7 +374,8 @@ class C06(Check):
     lean_targets = ["drv_c06"]
     driver = "drv_c06"
     theorems = ["Pox.C06.single_place", "Pox.C06.caller_blocked", "Pox.C06.no_overlap", "Pox.C06.program_order", "Pox.C06.step_once",
-                "Pox.C06.not_early", "Pox.C06.wake_is_registered", "Pox.C06.isolation", "Pox.C06.again_return", "Pox.C06.delivery",
+                "Pox.C06.not_early", "Pox.C06.wake_is_registered", "Pox.C06.isolation", "Pox.C06.finished_never_runs",
+                "Pox.C06.again_return", "Pox.C06.delivery", "Pox.C06.fair_partial", "Pox.C06.timer", "Pox.C06.timer_stopped",
                 "Pox.C06.again_empty_defect", "Pox.C06.send_zero_defect"]
     # function bodies only (a `def` line executes at import time, not during a run)
     anchors = [("pox/lib/recoco/recoco.py", a, b) for a, b in [(95, 111), (272, 279), (282, 282), (285, 295), (302, 352), (439, 439), (449, 450), (453, 460), (550, 561), (576, 579), (583, 593), (596, 598), (619, 624), (628, 658), (661, 664), (669, 701), (713, 714), (717, 733), (813, 820), (826, 829), (847, 927), (931, 936), (942, 942), (949, 950), (954, 955), (1044, 1061), (1064, 1068), (1071, 1071), (1074, 1081)]]
@@ -389,19 +390,23 @@ class C06(Check):
                    "times are multiples of 1/8 s, so float comparisons in the code agree with the model's integer comparisons",
                    "fewer than 1024 pings accumulate between two idle() calls (pongAll reads at most 1024 bytes; the model counts them)"]
     design_ref = "DESIGN.md §5 C06"
-    technique = ("Lean 4 proof (three invariants over all reachable states of a small-step model of the scheduler: placement, program order, "
-                 "wake-time accounting; one-cycle theorems for isolation and sub-task return) + differential correspondence of the compiled "
+    technique = ("Lean 4 proof (invariants over all reachable states of a small-step model of the scheduler: placement, program order, "
+                 "wake-time accounting, timer records vs. firings; one-cycle theorems for isolation and sub-task return; frame lemmas for "
+                 "'finished tasks never run again' and round-robin order) + differential correspondence of the compiled "
                  "model against the real Scheduler.run() under a virtual clock/select + independent property oracle on the real code's trace")
-    level_text = ("Theorems single_place/caller_blocked/no_overlap/program_order/step_once/not_early/wake_is_registered hold for every program "
-                  "table, task set, timer set, readiness script and number of loop iterations (unbounded); isolation/again_return/delivery are "
-                  "exact one-cycle statements for every state.  The model is hand-written; each run re-checks it against the real scheduler on "
+    level_text = ("Theorems single_place/caller_blocked/no_overlap/program_order/step_once/not_early/wake_is_registered/finished_never_runs/"
+                  "timer/timer_stopped hold for every program table, task set, timer set, readiness script and number of loop iterations "
+                  "(unbounded); isolation/again_return/delivery are exact one-cycle statements for every state; fair_partial is the exact "
+                  "round-robin bound for program tables without sub-task calls.  The model is hand-written; each run re-checks it against the real scheduler on "
                   "exhaustive small scopes plus random programs, comparing the full trace (task, step, virtual time, value/exception received, "
                   "wake time), timer firings, cycle count and final queues.")
     level_note = ("Proved about the model, tested for the code: the tie is the differential run.  Out of scope here: the threaded select hub, real "
-                  "file descriptors/epoll, CallBlocking worker threads, locks (C07), the priority<1 lottery.  Not proved (only checked by the oracle "
-                  "on the real code): fairness bound, timer once/recurring-until-cancelled, 'a dead task never runs again' as a multi-step theorem, "
-                  "absence of scheduler-internal assertion failures (the model keeps them as a `crashed` flag; never observed).  Inline-mode fact "
-                  "worth knowing: the hub is polled only when the ready deque is empty, so a task that always yields 0 starves all timed waiters.")
+                  "file descriptors (EpollSelect is only compared with select.select on pipes, as plain differential testing), CallBlocking "
+                  "worker threads, locks (C07), the priority<1 lottery.  Not proved (only checked by the oracle on the real code): fairness in "
+                  "the presence of sub-task calls (fair_full is false without a call-depth bound), that a timer's firing time is >= its due time "
+                  "(follows informally from not_early on the timer task's step), liveness ('eventually'), absence of scheduler-internal "
+                  "assertion failures/KeyErrors (the model keeps them as a `crashed` flag; never observed in any run).  Inline-mode fact worth "
+                  "knowing: the hub is polled only when the ready deque is empty, so a task that always yields 0 starves all timed waiters.")
     rule = ("case = (program table over the yield vocabulary, task list, timers, fd readiness times, socket scripts, start time, cycle budget); "
             "corpus = 13 hand-written scenarios + exhaustive scopes (every assignment of programs of <= L yields over an alphabet to N ordered tasks); "
             "non-trivial = the real run contains a timed resume, a sub-task step or a timer firing")
